@@ -241,6 +241,9 @@ func OracleC04(r *Run) []Problem {
 			add("events", "listener %d received %v, want exactly %v", l, got, want)
 		}
 	}
+	if r.LeakBeforeCancel != "" {
+		add("goroutine-outlives-its-stream", "every stream had ended and every connection call had returned (their contexts not yet cancelled by the caller), yet goroutines of the broker other than Broker.Do are still running:\n%s", r.LeakBeforeCancel)
+	}
 	if r.Leak != "" {
 		add("goroutine-left-behind", "after every transport was closed and Broker.Do had returned, goroutines of the broker are still running:\n%s", r.Leak)
 	}
